@@ -19,6 +19,16 @@ theorem context_protocol_as_modelled :
     Generated.Visitors.srcVisitTerminal = expectedVisitTerminal ∧ Generated.Visitors.srcVisitErrorNode = expectedVisitErrorNode :=
   ⟨rfl, rfl, rfl, rfl, rfl, rfl⟩
 
+/-- the error model of the tie ("recognition error ⇒ error returned", one recorded error per ANTLR report, unsupported-rule errors
+built without touching the text) transcribes exactly this text of parseCypher / Context.SyntaxError / Context.AddErrors /
+BaseVisitor.newUnsupportedRuleError: a guard in SyntaxError, a dropped listener registration or a slice of the offending text
+breaks this theorem -/
+theorem error_reporting_as_modelled :
+    Generated.Visitors.srcSyntaxError = expectedSyntaxError ∧ Generated.Visitors.srcAddErrors = expectedAddErrors ∧
+    Generated.Visitors.srcNewUnsupportedRuleError = expectedNewUnsupportedRuleError ∧
+    Generated.Visitors.srcParseCypherInner = expectedParseCypherInner :=
+  ⟨rfl, rfl, rfl, rfl⟩
+
 /-- the extractor understood every stack action: all visitor structs embed exactly BaseVisitor (method lookup = own else
 Base), nobody overrides the generic callbacks, every pushed type and every guard was resolved; rule tables agree -/
 theorem table_shape :
